@@ -1,20 +1,25 @@
 """C12 - minmax_chains: chains compute the same #min/#max, including the empty case"""
 from __future__ import annotations
 
+import corr_minmax
 import semcheck
 import tgen
 import semprop
 from props import _generic
 
 MODULE = "NgoVerif.Props.C12"
-LEVEL = ('Lean: over a finite domain with its covering relation, chain(v) <=> v <= max, the result rule picks exactly the maximum (given a selected element), no chain atom holds when nothing is selected (the #inf/#sup case), chain/next rules are a conservative positive-recursive extension (M4 =>), chain differences telescope to the extreme value. The rule templates and the choice simple/chain translation are decisions of minmax_aggregates.py/dependency.py: validated with clingo (no candidate, one, negatives, gaps, duplicates, groups with and without elements, costs).')
+LEVEL = ('Lean: over a finite domain with its covering relation, chain(v) <=> v <= max, the result rule picks exactly the maximum (given a selected element), no chain atom holds when nothing is selected (the #inf/#sup case), chain/next rules are a conservative positive-recursive extension (M4 =>), chain differences telescope to the extreme value. The rule templates, the choice simple/chain translation and the replacement of results in sums/objectives are modelled in Model/MinMax.lean (tied by corr_minmax.py: minmax_rules, minmax, minmax_info) on top of Model/Dependency.lean; their side conditions are validated with clingo (no candidate, one, negatives, gaps, duplicates, groups with and without elements, costs).')
 RULE = ('oracle cases = programs harvested from /repo/tests (dependency,minmax_aggregates first) mutations of them and programs of a targeted type-directed generator (harness/tgen.py) under minmax_chains only, 5 instances each (empty, small integer/symbolic domains, dense tiny domains, duplicates) over the input predicates; compared: answer sets on voc(P) one-to-one + costs; non-trivial = the pass changed the program and at least one instance was compared; distinct by program+flags')
 EXTRA = ['{q(1..5)}. in_band :- 3 < #max{X : q(X)} < 7.', '{q(1..5)}. low :- 7 > #min{X : q(X)} >= 3.', 'person(2). person(-2). skill(2,3). skill(-2,5). {pick(P,V)} :- skill(P,V). max(P,V) :- person(P), V = #max{S : pick(P,S)}. #minimize{ V,P : max(P,V) }.', '{q(X)} :- d(X). m(M) :- M = #max{X : q(X)}. n(M) :- M = #min{X : q(X)}.', '{q(X)} :- d(X). a :- #max{X : q(X)} >= 2. b :- #min{X : q(X)} <= 1. c :- #max{X : q(X)} < 2.']
 
 
+def corr(rng, quick):
+    return corr_minmax.run(rng, 60 if quick else 2500, corpus_limit=60 if quick else None)
+
+
 def run(ctx) -> int:
     flags = [semcheck.flags_only("minmax_chains")]
-    return _generic.run_semantic(ctx, MODULE, LEVEL, RULE, flags, 'voc', {'dependency', 'minmax_aggregates'}, EXTRA, (110, 700), (80, 3000),
+    return _generic.run_semantic(ctx, MODULE, LEVEL, RULE, flags, 'voc', {'dependency', 'minmax_aggregates'}, EXTRA, (110, 700), (80, 3000), corr=[('minmax', corr)],
                                  n_inst=5, facts_over='in', outp_choices=('auto',), one_to_one=True, generators=[tgen.GENERATORS['minmax_chains']],
                                  assumptions=("the pass's syntactic decisions are not derived from the ground-level side conditions in Lean (validated by the oracle)", 'instances range over the declared/auto-detected input predicates only'))
 
